@@ -55,11 +55,15 @@ PROPS = {
                 "count clause |returned| = min(batch, ready); sub-granularity tier moves the clock off the 10ms lattice and allows sqlite < 10ms lag; "
                 "non-trivial = a dequeue with batch != ready > 0 and >=2 distinct readiness reasons present | long-history tier: 300-4200 messages pass through "
                 "(enqueue, lease, ack in 1-5 waves) while 1-50 stay leased and 0-100 arrive late; after release by nack / batch nack / expiry every "
-                "unsettled message must be offered again exactly once (reaches the memory backend's order-list compaction at 1024 slots)",
+                "unsettled message must be offered again exactly once (reaches the memory backend's order-list compaction at 1024 slots) | waiting-consumer tier: "
+                "a long-poll dequeue (max_wait 3 s, wall clock) is already waiting when 1-3 messages of its route become due on the injected store clock (lease of "
+                "another consumer expires, nack / batch-nack delay elapses, scheduled next_run_at is reached; with and without queued rows on other routes, with and "
+                "without a wake-up signal before the due instant); it must return min(batch, due) messages; non-trivial = the call was still waiting when the clock was advanced",
         "assumptions": [POSTGRES, SAMPLED, "'eventually offered' is checked at the generated dequeue instants only (bounded-delay form), not as liveness"],
         "parts": [{"engine": "qmodel", "test": "TestProp_C05_Store", "quick": 2500, "thorough": 300000},
                   {"engine": "qmodel", "test": "TestProp_C05_SubGranularity", "quick": 1500, "thorough": 200000},
-                  {"engine": "qmodel", "test": "TestProp_C05_LongHistory", "quick": 120, "thorough": 6000, "shards": {"quick": 4}}],
+                  {"engine": "qmodel", "test": "TestProp_C05_LongHistory", "quick": 120, "thorough": 6000, "shards": {"quick": 4}},
+                  {"engine": "qmodel", "test": "TestProp_C05_WaitingConsumer", "quick": 48, "thorough": 3200, "shards": {"quick": 4}, "shrinktime": "20s"}],
     },
     "C12": {
         "rule": "store tier: queues pre-filled to max_depth(-1), single and batch enqueues (duplicates, batches larger than the remaining capacity, "
